@@ -25,12 +25,17 @@ IT_PROGRAMS = ["aff:0:0:2", "aff:0:0:-1", "aff:0:0:0", "aff:2:2:2", "aff:-1:2:0"
 SCHEDULES = [[2, 4], [2, 4, 8], [3, 5, 2]]
 FRACS = [0.5, 0.99, 0.9999]
 TOLS = [None, 0.01]
+# histories on ONE iterative sampler / ONE grid: (f1, f2) -> f1, f2, f1 again. f1 converges at an intermediate sub-size in
+# some pixels (constants: in all), f2 runs to the last sub-size in some of them (and vice versa on the way back)
+HIST_PAIRS = [("aff:0:0:2", "gaussn"), ("gauss", "peak"), ("peak", "sincos"), ("relux", "gauss")]
+HIST_CONFIGS = [([2, 4, 8], 0.99, None), ([2, 4, 8], 0.9999, None), ([3, 5, 2], 0.99, 0.01)]
 
 RULE = (
     "cases = (kind, mask, geometry): every boolean mask (>=1 unmasked pixel) of every shape HxW with H*W <= 9 x "
     "geometry menu (4 pixel-scale pairs x 3 origins) x kind in {G: sampler tables/positions/binning over every "
     "sub-size map of the menu, F: all %d programs through the decorator / array_via_func_from / Grid2DOverSampled / "
-    "config-driven adaptive scheme, I: iterative scheme over programs x schedules x accuracies x tolerances}; "
+    "config-driven adaptive scheme, I: iterative scheme over programs x schedules x accuracies x tolerances, each on a "
+    "fresh sampler, followed by call histories f1,f2,f1 on ONE sampler object and on ONE grid through the decorator}; "
     "non-trivial = G/F: mask has masked pixels and >= 2 unmasked pixels; I: at least two different stopping levels "
     "were observed among the runs of the case" % N_PROGRAMS
 )
@@ -44,6 +49,13 @@ ASSUMPTIONS = [
     "would change under the uncertainty of the reference level values (spread under +-1e-12 position shifts + 1e-14 "
     "relative + summation rounding), when the ratio lies within 1e-9 of the threshold or |difference| within 1e-9 of "
     "the tolerance, or when a level value is zero only up to rounding (sign of 'previous value positive' undecidable)",
+    "samplers hold no state between calls by specification: within one case one uniform sampler / one grid serves all "
+    "programs and labellings in turn (a mismatch that a fresh sampler does not show is classed "
+    "'...:second-call-on-same-sampler' / '...:second-call-on-same-grid'), and one iterative sampler (and one grid with a "
+    "cached iterative sampler) is called with f1, f2, f1 for 4 function pairs chosen so that pixels which stop at an "
+    "intermediate sub-size under one function run to the last sub-size under the other (outcome 'hist-crossK/4' = number "
+    "of pairs for which the reference stopping levels show such a pixel); each result must equal bitwise the value a "
+    "fresh sampler returned (which is itself checked against the reference), so tie bands do not matter here",
     "program count: %d distinct functions = 27 affine a*y+b*x+c (a,b,c in {-1,0,2}; includes 3 constants) + %d "
     "non-linear (y*x, |x|, 2 Gaussians, 2 half-plane-zero ReLUs, 2 negative-valued, sin*cos, peaked 1/(0.1+r^2), r); "
     "each is also called through 3 method styles (bare self-named, bare obj-named, stacked on to_array)"
@@ -59,7 +71,9 @@ BOUNDS = {
     "and without obj, config-driven adaptive scheme (2 configs)} on geometry #4 for every mask and on geometry #8 for "
     "masks <= 6 cells; cyclic map x {bare decorated method, array_via_func_from} on the other 10 geometries for "
     "masks <= 6 cells. I: masks <= 6 cells x geometries {#0, #4} x 14 programs x schedules {[2,4],[2,4,8],[3,5,2]} x "
-    "fractional accuracies {0.5,0.99,0.9999} x absolute tolerances {None,0.01}, direct call + decorated call",
+    "fractional accuracies {0.5,0.99,0.9999} x absolute tolerances {None,0.01}, direct call + decorated call; then "
+    "4 pairs (f1,f2) x call history f1,f2,f1 on one OverSamplerIterate and on one Grid2D(OverSamplingIterate) "
+    "(configs ([2,4,8],0.99), ([2,4,8],0.9999), ([3,5,2],0.99,tol 0.01) rotating over the pairs)",
     "thorough": "as quick with uniform maps 1..8, every map in {1,2,3}^n for n<=5 on geometries #4/#8 and n<=4 on "
     "the other 10, F with all entry points (+ uniform 4 and 8) on all 12 geometries for every mask, I on masks <= 9 "
     "cells x geometries {#0,#4,#8,#10}",
@@ -377,8 +391,15 @@ def run_G(aa, v, m, g, gi, seed, t):
             keep = vals.copy()
             b = os_.binned_array_2d_from(array=vals)
             sc = max(1.0, float(np.abs(vals).max()))
-            v.ok(_close(_a(b), want, sc), "binned_array_2d_from:mean",
-                 lambda: "map=%s labels=%s got %s want %s" % (tag, lname, _a(b).tolist(), want.tolist()))
+            if _close(_a(b), want, sc):
+                v.ok(True, "binned_array_2d_from:mean")
+            else:
+                # the sampler has been used before (earlier labellings / maps share no state by specification): a fresh
+                # sampler that gets it right pins the defect on state kept between calls
+                bf = _sampler(aa, mask, smap, int_form).binned_array_2d_from(array=vals.copy())
+                v.fail("binned_array_2d_from:second-call-on-same-sampler" if (lname != "inj" and _close(_a(bf), want, sc))
+                       else "binned_array_2d_from:mean",
+                       "map=%s labels=%s got %s want %s (fresh sampler: %s)" % (tag, lname, _a(b).tolist(), want.tolist(), _a(bf).tolist()))
             v.ok(dom.exact(vals, keep), "binned_array_2d_from:input-mutated", tag)
             v.ok(dom.exact(_a(b.mask), m), "binned_array_2d_from:result-mask", tag)
         b2 = os_.binned_array_2d_from(array=aa.ArrayIrregular(values=vals))
@@ -491,7 +512,14 @@ def run_F(aa, v, m, g, gi, seed, t):
             info = lambda what, got: "%s map=%s f=%s got %s want %s" % (what, tag, name, _a(got).tolist(), want.tolist())
             # E3: sampler entry point
             r3 = os_.array_via_func_from(func=P.raw, obj=prof)
-            v.ok(_close(_a(r3), want, sc), "array_via_func_from", lambda: info("array_via_func_from", r3))
+            if _close(_a(r3), want, sc):
+                v.ok(True, "array_via_func_from")
+            else:
+                # one sampler serves all programs of this map in turn; a fresh sampler that gets it right pins the defect
+                # on state kept between calls
+                rf = _sampler(aa, mask, smap, int_form).array_via_func_from(func=P.raw, obj=P(name, par))
+                v.fail("array_via_func_from:second-call-on-same-sampler" if (name != PROGRAMS[0] and _close(_a(rf), want, sc))
+                       else "array_via_func_from", info("array_via_func_from", r3) + " (fresh sampler: %s)" % _a(rf).tolist())
             if is_affine(name):
                 wc = feval(name, cen[:, 0], cen[:, 1], par)
                 v.ok(_close(_a(r3), wc, cscale * 3), "binned:affine-exact-at-centre", lambda: info("affine", r3))
@@ -504,10 +532,18 @@ def run_F(aa, v, m, g, gi, seed, t):
                 v.ok(_close(_a(r1o), want, sc), "decorator:sub-size-one", lambda: info("bare_obj", r1o))
             else:
                 r1 = prof.bare_self(grid)
-                v.ok(_close(_a(r1), want, sc), "decorator:binned", lambda: info("bare_self", r1))
+                if _close(_a(r1), want, sc):
+                    v.ok(True, "decorator:binned")
+                else:
+                    # the grid (and its cached over-sampler) serves all programs in turn
+                    gf = aa.Grid2D.from_mask(mask=mask, over_sampling=_over_sampling(aa, mask, smap, int_form))
+                    rf1 = P(name, par).bare_self(gf)
+                    v.fail("decorator:binned:second-call-on-same-grid" if (name != PROGRAMS[0] and _close(_a(rf1), want, sc))
+                           else "decorator:binned", info("bare_self", r1) + " (fresh grid: %s)" % _a(rf1).tolist())
                 v.ok(dom.exact(_a(r1), _a(r3)), "decorator:binned", lambda: info("bare_self != array_via_func_from bitwise", r1))
-                v.ok(dom.exact(_a(r1.mask), m) and tuple(r1.mask.pixel_scales) == (sy, sx) and tuple(r1.mask.origin) == (oy, ox),
-                     "decorator:result-mask", lambda: "map=%s" % tag)
+                v.ok(hasattr(r1, "mask") and dom.exact(_a(r1.mask), m) and tuple(r1.mask.pixel_scales) == (sy, sx)
+                     and tuple(r1.mask.origin) == (oy, ox), "decorator:result-mask",
+                     lambda: "map=%s f=%s result type %s" % (tag, name, type(r1).__name__))
             if not all_entries:
                 continue
             # E2: stacked on to_array; other Grid2D constructors
@@ -684,6 +720,9 @@ def run_I(aa, v, m, g, gi, seed, t):
     nskip = 0
     shortcut = 0
     configs = [(st, fr, tl) for st in SCHEDULES for fr in FRACS for tl in TOLS]
+    hist_ci = [configs.index((st, fr, tl)) for st, fr, tl in HIST_CONFIGS]
+    hist_names = set(f for pr in HIST_PAIRS for f in pr)
+    fresh = {}  # (program, config index) -> (value returned by a fresh sampler [checked against the reference below], stops)
     for fi, name in enumerate(IT_PROGRAMS):
         lv = {}
         for s, pts in pts_l.items():
@@ -712,6 +751,8 @@ def run_I(aa, v, m, g, gi, seed, t):
             if got.shape != (n,):
                 continue
             exp, stop = ref_iterate(lv, steps, frac, tol, n)
+            if ci in hist_ci and name in hist_names:
+                fresh[(name, ci)] = (got.copy(), list(stop))
             if centre_all_zero:
                 # every value at sub-size one is exactly zero: the previous value is never positive, so the statement
                 # prescribes the value at the last sub-size for every pixel
@@ -751,9 +792,50 @@ def run_I(aa, v, m, g, gi, seed, t):
                 v.ok(dom.exact(_a(rd), got), "decorator:iterate", lambda: "%s decorated %s direct %s" % (tag, _a(rd).tolist(), got.tolist()))
                 rd2 = prof.stacked(grid)
                 v.ok(_close(_a(rd2), got, 1.0), "decorator:iterate", lambda: "%s stacked %s direct %s" % (tag, _a(rd2).tolist(), got.tolist()))
+    # ---- histories: ONE sampler object (and ONE grid through the decorator) serves f1, then f2, then f1 again; every result must
+    # be bitwise what a fresh sampler returned for the same function (those values are checked against the reference above)
+    hist_cross = 0
+    for pi, (f1, f2) in enumerate(HIST_PAIRS):
+        seq = (f1, f2, f1)
+        # direct calls on one sampler
+        ci = hist_ci[pi % len(hist_ci)]
+        steps, frac, tol = configs[ci]
+        it = aa.OverSamplerIterate(mask=mask, fractional_accuracy=frac, relative_accuracy=tol, sub_steps=list(steps))
+        kept = []
+        if any((f, c) not in fresh for f in seq for c in hist_ci):
+            continue  # a fresh sampler already returned a wrongly shaped result (reported above)
+        for j, name in enumerate(seq):
+            res = it.array_via_func_from(func=P.raw, obj=P(name, par))
+            got = _a(res).copy()
+            want = fresh[(name, ci)][0]
+            v.ok(dom.exact(got, want), "iterate:second-call-on-same-sampler" if j else "iterate:value",
+                 lambda: "steps=%s frac=%s tol=%s: one sampler called with %s; call %d (f=%s) returned %s, a fresh sampler returns %s"
+                 % (steps, frac, tol, " then ".join(seq[:j + 1]), j + 1, name, got.tolist(), want.tolist()))
+            for (jo, ro, so) in kept:
+                v.ok(dom.exact(_a(ro), so), "iterate:earlier-result-changed-by-later-call",
+                     lambda: "steps=%s frac=%s tol=%s: the array returned by call %d (f=%s) changed from %s to %s during call %d (f=%s)"
+                     % (steps, frac, tol, jo + 1, seq[jo], so.tolist(), _a(ro).tolist(), j + 1, name))
+            kept.append((j, res, got))
+        last = len(steps) - 1
+        s1, s2 = fresh[(f1, ci)][1], fresh[(f2, ci)][1]
+        if any(a != "skip" and b != "skip" and ((a < last and b == last) or (b < last and a == last)) for a, b in zip(s1, s2)):
+            hist_cross += 1
+        # the decorator: the over-sampler is cached on the grid, so two profiles evaluated on one grid share it
+        ci = hist_ci[(pi + 1) % len(hist_ci)]
+        steps, frac, tol = configs[ci]
+        grid = aa.Grid2D.from_mask(mask=mask, over_sampling=aa.OverSamplingIterate(
+            fractional_accuracy=frac, relative_accuracy=tol, sub_steps=list(steps)))
+        for j, name in enumerate(seq):
+            prof = P(name, par)
+            rd = prof.bare_self(grid) if j != 1 else prof.stacked(grid)
+            want = fresh[(name, ci)][0]
+            v.ok(_close(_a(rd), want, 1.0), "decorator:iterate:second-call-on-same-grid" if j else "decorator:iterate",
+                 lambda: "steps=%s frac=%s tol=%s: one grid evaluated with %s; call %d (f=%s) returned %s, a fresh sampler returns %s"
+                 % (steps, frac, tol, " then ".join(seq[:j + 1]), j + 1, name, _a(rd).tolist(), want.tolist()))
     v.nontrivial = len(seen_levels) >= 2
     total = n * len(IT_PROGRAMS) * len(configs)
     frac_skip = nskip / float(total)
     bucket = "" if nskip == 0 else (":skip<2%" if frac_skip < 0.02 else (":skip<10%" if frac_skip < 0.1 else ":skip>=10%"))
-    v.outcome = "I:n%d:levels=%s%s%s" % (n, ",".join(str(s) for s in sorted(seen_levels, key=str)),
-                                        bucket, ":zero-shortcut" if shortcut else "")
+    v.outcome = "I:n%d:levels=%s%s%s%s" % (n, ",".join(str(s) for s in sorted(seen_levels, key=str)),
+                                          bucket, ":zero-shortcut" if shortcut else "",
+                                          ":hist-cross%d/%d" % (hist_cross, len(HIST_PAIRS)))
